@@ -55,6 +55,10 @@ CLAIMED = {
    text='Coq theorems: a two-site stage update applies the local propagator to the contracted core pair (SVD value conjunct); coefficient conditions of Lie, Strang, Yoshida (2w1+w0=1, 2w1^3+w0^3=0 for c^3=2, over R) and Kahan-Li (palindromic, sum 1, cubic and quintic sums < 1e-25, exact Q arithmetic) re-proved against the coefficient table and stage sequences regenerated from ode.py on every run. lie/strang (homogeneous and site-dependent components) are tied to /repo by differential execution with expm and SVD tapes, the stage order coming from the regenerated table; side check: all four schemes against the dense ordered product of scipy.linalg.expm factors, observed convergence orders, norm preservation for skew-Hermitian generators.',
    note='PARTIAL: "one step = ordered dense product" as a composed theorem and the global orders (BCH / composition theory) are side-check claims; Yoshida/Kahan-Li have irrational/decimal coefficients and are covered by the translator + side check, not by integer correspondence. Trusted: Coq kernel, Reals axioms (Yoshida), translator, expm/SVD oracles.',
    technique='translator-regenerated coefficient tables + Coq proofs (field/Q arithmetic, pair update) + oracle-tape correspondence', design='6 C10'),
+ 'C11': dict(
+   text='Coq theorems: norm conservation of a projector-splitting sub-step (orthonormal frame, unitary coefficient update), energy conservation when the update commutes with the effective operator, the padded-factor conjugation q~^H M q~ of the backward sub-steps equals the model index formula, trajectory shape. tdvp1site/tdvp2site are tied to /repo by differential execution with expm_multiply, qr, rq and svd answered from a tape (every effective operator, vector and state compared); side check: exactness against scipy.linalg.expm(-itH)x0 at maximal ranks in arbitrary gauge, norm/energy conservation at low rank, Krylov with full dimension, inputs unchanged and trajectory shape for all four drivers.',
+   note='PARTIAL: exactness at maximal ranks and Lanczos exactness need the matrix exponential (oracle) and are decided by correspondence + float side check, not by a theorem; hypotheses "orthonormal frame / unitary commuting propagator" are the specs of QR/RQ/SVD/expm. Known findings F09/F09b: ode.tdvp (hybrid) raises IndexError at maximal ranks / leaves order-1 states unevolved. Trusted: Coq kernel, harness tapes.',
+   technique='Coq proofs (conservation algebra, projected operators) + oracle-tape correspondence (expm/qr/rq/svd) + dense expm side check', design='6 C11'),
 }
 NOT_YET = {}
 ALL = ['C%02d' % i for i in range(1, 21)]
